@@ -36,19 +36,46 @@ Section Stmts.
                     (Forall2 (fun c cs => In c cs) s (map (icharges G) ixs)
                      /\ is_valid_sector G (map (idual G) ixs) (charge_or_ident G q) s = true)).
 
-  (* 0. __init__ infers the charge from the FIRST sector with the plain combine;
-        that makes the sector charge-conserving when no index is dual. *)
+  (* 0. __init__ with the charge omitted infers it from the FIRST stored sector as the signed
+        combination; for EVERY dualness pattern that makes the first sector charge conserving,
+        and for a block set that conserves some charge q the inferred charge is q, so every
+        stored sector is conserving. *)
   Definition init_infers_charge_stmt : Prop :=
     forall (ixs : list (index G)) (blks : list (sector * tensor R)),
       indices G R (init_array G R ixs None blks) = ixs
       /\ blocks G R (init_array G R ixs None blks) = blks
       /\ (blks = [] -> charge G R (init_array G R ixs None blks) = ident G)
       /\ (forall s b rest, blks = (s, b) :: rest ->
-            charge G R (init_array G R ixs None blks) = combine G s
-            /\ (GroupLaws G -> length s = length ixs ->
-                forallb (fun ix => negb (idual G ix)) ixs = true ->
-                is_valid_sector G (map (idual G) ixs) (charge G R (init_array G R ixs None blks)) s = true))
+            charge G R (init_array G R ixs None blks)
+            = combine G (signed_sector G false s (map (idual G) ixs))
+            /\ (GroupLaws G ->
+                is_valid_sector G (map (idual G) ixs) (charge G R (init_array G R ixs None blks)) s = true)
+            /\ (GroupLaws G -> forall q,
+                Forall (fun sb => is_valid_sector G (map (idual G) ixs) q (fst sb) = true) blks ->
+                charge G R (init_array G R ixs None blks) = q
+                /\ Forall (fun sb => is_valid_sector G (map (idual G) ixs)
+                                        (charge G R (init_array G R ixs None blks)) (fst sb) = true) blks))
       /\ (forall c, charge G R (init_array G R ixs (Some c) blks) = c).
+
+  (* 0b. direct construction with the charge omitted recovers a valid array from its indices
+        and blocks; from_blocks with the charge omitted takes the IDENTITY instead (documented),
+        so the two routes agree exactly when the charge of the blocks is the identity; otherwise
+        the from_blocks result has charge identity and NONE of its sectors conserves it.
+        from_blocks given the inferred charge always agrees. *)
+  Definition direct_vs_from_blocks_stmt : Prop :=
+    GroupLaws G -> OrderLaws G ->
+    forall (x : arr), wf_array G R x = true -> blocks G R x <> [] ->
+      init_array G R (indices G R x) None (blocks G R x) = x
+      /\ (exists y1, from_blocks G R (blocks G R x) (duals G R x)
+                                 (Some (charge G R (init_array G R (indices G R x) None (blocks G R x)))) = Some y1
+                     /\ charge G R y1 = charge G R x /\ blocks G R y1 = blocks G R x
+                     /\ duals G R y1 = duals G R x)
+      /\ (exists y0, from_blocks G R (blocks G R x) (duals G R x) None = Some y0
+                     /\ charge G R y0 = ident G /\ blocks G R y0 = blocks G R x
+                     /\ (charge G R y0 = charge G R x <-> charge G R x = ident G)
+                     /\ (charge G R x <> ident G ->
+                         forall s, In s (sectors G R y0) ->
+                                   is_valid_sector G (duals G R y0) (charge G R y0) s = false)).
 
   (* 2. from_blocks (blocks x) (duals x) q: same charge (or identity), same blocks, same sem;
         tables = the charges that occur in stored sectors (= prune_indices); equal to the
